@@ -197,8 +197,99 @@ def pure(ctx, fname, n=4):
                 good.append(ctx.eq(u, v))
     ctx.claim('same_result_when_called_again', S.sym_and(*good), fname)
 
+OBS = ['values', 'time', 'velocity', 'displacement', 'fa_spectrum', 'fa_freqs', 'smooth_fa_spectrum', 'pga', 'pgv', 'pgd',
+       's_a', 's_v', 's_d', 'response_times', 'smooth_fa_freqs', 'npts', 'dt']
 
-SCENARIOS = {'ownership': ownership, 'pure': pure}
+
+def _obj_table():
+    """analysis functions applied to a signal OBJECT, or to the arrays the object hands out (its cached arrays are
+    returned without a copy, so an analysis function that works in place would corrupt the object silently)."""
+    pc = lambda L: L.fns.peaks_and_crossings
+    T = {}
+    for nm in ('calc_arias_intensity', 'calc_cav', 'calc_isv', 'calc_integral_of_abs_velocity', 'calc_cumulative_abs_displacement',
+               'calc_integral_of_abs_acceleration', 'calc_unit_kinetic_energy', 'max_fa_period'):
+        T[nm] = (lambda nm_: (lambda L, s: getattr(L.im, nm_)(s)))(nm)
+    T['calc_brac_dur'] = lambda L, s: L.im.calc_brac_dur(s, 1.0, se=True)
+    T['calc_sig_dur'] = lambda L, s: _try(lambda: L.im.calc_sig_dur(s, se=True))
+    T['fas2values_of_cached_spectrum'] = lambda L, s: L.fns.frequency.fas2values(s.fa_spectrum, s.dt)
+    T['fas2signal_of_cached_spectrum'] = lambda L, s: L.fns.frequency.fas2signal(s.fa_spectrum, s.dt).values
+    T['calc_fa_spectrum'] = lambda L, s: L.fns.frequency.calc_fa_spectrum(s)
+    T['generate_fa_spectrum_fn'] = lambda L, s: L.fns.frequency.generate_fa_spectrum(s)
+    T['smooth_of_cached_spectrum'] = lambda L, s: L.fns.frequency.calc_smooth_fa_spectrum(s.fa_freqs, s.fa_spectrum, s.smooth_fa_freqs)
+    T['peaks_only_delta_of_values'] = lambda L, s: _try(lambda: pc(L).determine_peaks_only_delta_series(s.values))
+    T['pseudo_cyclic_of_values'] = lambda L, s: _try(lambda: pc(L).determine_pseudo_cyclic_peak_only_series(s.values))
+    T['peaks_only_delta_of_velocity'] = lambda L, s: _try(lambda: pc(L).determine_peaks_only_delta_series(s.velocity))
+    T['switched_peaks_of_object'] = lambda L, s: pc(L).get_switched_peak_indices(s)
+    T['zero_crossings_of_displacement'] = lambda L, s: pc(L).get_zero_crossings_array_indices(s.displacement)
+    T['n_cyc_of_values'] = lambda L, s: pc(L).get_n_cyc_array(s.values)
+    T['velo_disp_of_values'] = lambda L, s: L.displacements.calc_velo_and_disp_from_accel_arr(s.values, s.dt)
+    T['spectra_of_values_and_times'] = lambda L, s: L.sdof.pseudo_response_spectra(s.values, s.dt, s.response_times, 0.05)
+    T['response_series_of_object'] = lambda L, s: s.response_series()
+    T['roll_av_of_velocity'] = lambda L, s: L.fns.average.calc_roll_av_vals(s.velocity, 3, mode='centre')
+    T['calc_peak_of_time'] = lambda L, s: L.im.calc_peak(s.time)
+    T['interp_to_approx_dt'] = lambda L, s: L.fns.time_step.interp_to_approx_dt(s, 0.04).values
+    T['stockwell_of_values'] = lambda L, s: L.stockwell.transform(s.values)
+    T['surface_energy'] = lambda L, s: L.surface.calc_surface_energy(s, np.array([0.05, 0.2]), trim=True)
+    T['remove_poly_fn_of_values'] = lambda L, s: L.fns.generic.remove_poly(s.values, 1)
+    T['join_values_w_shifts_of_values'] = lambda L, s: L.fns.time_shift.join_values_w_shifts(s.values, np.array([1, 2]))
+    T['step_fn_error_of_displacement'] = lambda L, s: L.fns.average.calc_step_fn_vals_error(s.displacement, pow=2)
+    T['cyc_amp_of_values'] = lambda L, s: L.im.calc_cyc_amp_array_w_power_law(s.values, 2.0, 1.0)
+    return T
+
+
+# observables without max/abs atoms: used for the functions whose control flow depends on the values (each branch
+# feasibility check otherwise carries the definitional constraints of every spectral maximum)
+OBS_LIGHT = ['values', 'time', 'velocity', 'displacement', 'fa_spectrum', 'fa_freqs', 'response_times', 'smooth_fa_freqs', 'npts', 'dt']
+BRANCHY = ('calc_brac_dur', 'calc_sig_dur', 'peaks_only_delta_of_values', 'pseudo_cyclic_of_values', 'peaks_only_delta_of_velocity',
+           'switched_peaks_of_object', 'zero_crossings_of_displacement', 'n_cyc_of_values', 'cyc_amp_of_values', 'max_fa_period',
+           'step_fn_error_of_displacement')
+
+
+def _observe_all(sig, names=OBS):
+    out = {}
+    for o in names:
+        out[o] = _flat(getattr(sig, o))
+    return out
+
+
+def object_pure(ctx, fname, n=6):
+    """every observable of the object (record, time, cached velocity/displacement/spectra/peaks/settings) is the same
+    after an analysis function ran on the object or on the arrays it hands out, the function returns the same result when
+    called again, and the object still agrees with a freshly constructed one."""
+    lib = ctx.lib
+    a = ctx.arr('a', n, -10.0, 10.0)
+    if 'cyc_amp' in fname:
+        ctx.assume(S.sym_and(*[a[j] != 0 for j in range(n)]))
+    mk = lambda: lib.AccSignal(a, DT, smooth_fa_freqs=np.array([0.7, 1.3, 2.4]), response_times=np.array([0.3, 0.9]))
+    sig = mk()
+    names = OBS_LIGHT if fname in BRANCHY else OBS
+    before = _observe_all(sig, names)             # this also fills the caches
+    f = _obj_table()[fname]
+    r1 = _flat(f(lib, sig))
+    after = _observe_all(sig, names)
+    r2 = _flat(f(lib, sig))
+    after2 = _observe_all(sig, names)
+    fresh = _observe_all(mk(), names)
+
+    def same(x, y):
+        if len(x) != len(y):
+            return False
+        good = []
+        for u, v in zip(x, y):
+            if isinstance(u, (str, type(None))) or isinstance(v, (str, type(None))):
+                good.append(u == v)
+            elif not S.is_sym(u) and not S.is_sym(v) and not isinstance(u, complex) and (np.isinf(u) or np.isinf(v)):
+                good.append(bool(u == v))          # e.g. the period of the zero-frequency bin
+            else:
+                good.append(ctx.eq(u, v))
+        return S.sym_and(*good)
+    for o in names:
+        ctx.claim('object_observable_unchanged:' + o, S.sym_and(same(before[o], after[o]), same(before[o], after2[o]),
+                                                               same(fresh[o], after2[o])), fname)
+    ctx.claim('same_result_when_called_again', same(r1, r2), fname)
+
+
+SCENARIOS = {'ownership': ownership, 'pure': pure, 'object_pure': object_pure}
 SELFTEST_PER_SCENARIO = 60
 SELFTEST_NVEC = 1
 
@@ -219,3 +310,5 @@ def obligations(tier, seed):
         elif fname in ('n_cyc_power_law', 'cyc_amp_power_law', 'get_switched_peaks'):
             nn = 4
         yield Ob('pure', {'fname': fname, 'n': nn}, query_ms=30000, timeout_s=600)
+    for fname in _obj_table():
+        yield Ob('object_pure', {'fname': fname, 'n': 5 if q else 8}, query_ms=30000, timeout_s=600)
